@@ -17,6 +17,10 @@ from .sym import (VInt, VBool, VStr, VAtom, VConst, VTuple, VObj, VList, VDict, 
                   VOpaque, VDyn, VFloat, V, Unsupported, sand, sor, atom)
 
 
+import os
+TRACE = bool(os.environ.get("PYVC_TRACE"))
+
+
 # ----------------------------------------------------------------------------- control signals
 class _Return(Exception):
     def __init__(self, val):
@@ -58,16 +62,29 @@ class _Raise(Exception):
         self.exc = exc
 
 
-class ListObj:
-    __slots__ = ("len", "items", "elem")
+class StarArgs:
+    """A *symbolic_list argument of a call (lands in the callee's *args parameter)."""
 
-    def __init__(self, length, items=None, elem=None):
+    def __init__(self, lst):
+        self.lst = lst
+
+
+class ListObj:
+    __slots__ = ("len", "items", "spec", "arrays")
+
+    def __init__(self, length, items=None, spec=None, arrays=None):
         self.len = length
-        self.items = items  # python list of V when concretely known, else None
-        self.elem = elem  # typespec for elements (materialisation)
+        self.items = items    # python list of V when concretely known, else None
+        self.spec = spec      # element type spec (codec.py) when known
+        self.arrays = arrays  # z3 arrays (one per component of spec) when items is None
+
+    @property
+    def elem(self):
+        return self.spec
 
     def copy(self):
-        return ListObj(self.len, None if self.items is None else list(self.items), self.elem)
+        return ListObj(self.len, None if self.items is None else list(self.items), self.spec,
+                       None if self.arrays is None else list(self.arrays))
 
 
 class State:
@@ -186,6 +203,7 @@ class Interp:
         self.theory_seen = set()
         self.live_olds = []
         self.live_heap = None
+        self.str_arrays = {}
         self.world.theory_reset(self)
 
     def fresh_oid(self):
@@ -213,8 +231,12 @@ class Interp:
             model = self.S.model() if r == z3.sat else None
         finally:
             self.S.pop()
-        self.solver_time += time.time() - t0
+        dt = time.time() - t0
+        self.solver_time += dt
         self.solver_calls += 1
+        if TRACE and dt > 0.5:
+            print(f"[trace] check {r} {dt:.2f}s line={getattr(self, 'cur_line', '?')} "
+                  f"extra={[str(e)[:120] for e in extra]}", flush=True)
         return r, model
 
     def feasible(self, extra=()):
@@ -315,8 +337,13 @@ class Interp:
     def fresh_bool(self, base="b"):
         return VBool(z3.Bool(self.namer.fresh(base)))
 
-    def fresh_str(self, base="s", maxlen=None):
+    def new_str_array(self, base):
         arr = z3.Array(self.namer.fresh(base), sym.I, sym.I)
+        self.str_arrays[arr.get_id()] = arr   # keeps the AST (and so its id) alive
+        return arr
+
+    def fresh_str(self, base="s", maxlen=None):
+        arr = self.new_str_array(base)
         n = z3.Int(self.namer.fresh(base + "_len"))
         self.assume(n >= 0)
         return VStr(arr=arr, lo=z3.IntVal(0), hi=n)
@@ -328,6 +355,8 @@ class Interp:
         """Fresh symbolic value of a type spec (see World.SHAPES)."""
         if isinstance(spec, (list, tuple)) and spec and spec[0] == "tuple":
             return VTuple([self.fresh(s, f"{label}_{i}") for i, s in enumerate(spec[1:])])
+        if isinstance(spec, (list, tuple)) and spec and spec[0] == "list":
+            return self.fresh_list(spec[1], label)
         if spec == "int":
             return self.fresh_int(label)
         if spec == "nat":
@@ -339,7 +368,7 @@ class Interp:
         if spec == "str":
             return self.fresh_str(label)
         if spec == "char":
-            arr = z3.Array(self.namer.fresh(label), sym.I, sym.I)
+            arr = self.new_str_array(label)
             return VStr(arr=arr, lo=z3.IntVal(0), hi=z3.IntVal(1))
         if spec == "none":
             return atom(None)
@@ -360,12 +389,8 @@ class Interp:
             cls = self.world.resolve_class(spec[4:])
             return VObj(cls, self.fresh_oid(), label)
         if spec.startswith("list"):
-            oid = self.fresh_oid()
-            n = z3.Int(self.namer.fresh(label + "_len"))
-            self.assume(n >= 0)
-            elem = spec[5:] if spec.startswith("list:") else "opaque"
-            self.st.lists[oid] = ListObj(n, None, elem)
-            return VList(oid)
+            elem = spec[5:] if spec.startswith("list:") else None
+            return self.fresh_list(elem, label)
         if spec.startswith("ntuple:"):
             cls = self.world.resolve_class(spec[7:])
             names = list(cls._fields)
@@ -374,8 +399,35 @@ class Interp:
                           names=names, cls=cls)
         raise Unsupported(f"type spec {spec!r}")
 
+    def fresh_list(self, elem, label):
+        from . import codec
+        oid = self.fresh_oid()
+        n = z3.Int(self.namer.fresh(label + "_len"))
+        self.assume(n >= 0)
+        arrays = None
+        if elem is not None and elem != "opaque":
+            arrays = codec.fresh_arrays(self, elem, label)
+        self.st.lists[oid] = ListObj(n, None, elem if elem != "opaque" else None, arrays)
+        return VList(oid)
+
+    def resolve(self, v):
+        """Outside specifications a lazy union None|T is resolved by forking."""
+        from .codec import VOpt
+        if isinstance(v, VOpt):
+            if self.st.spec:
+                return v
+            if self.decide(v.is_none):
+                return atom(None)
+            return self.resolve(v.val)
+        if isinstance(v, VTuple) and any(isinstance(x, (VOpt, VTuple)) for x in v.items):
+            return VTuple([self.resolve(x) for x in v.items], v.names, v.cls)
+        return v
+
     def truth(self, v):
         """z3 Bool for Python truthiness of v."""
+        from .codec import VOpt
+        if isinstance(v, VOpt):
+            return z3.And(z3.Not(v.is_none), self.truth(v.val))
         if isinstance(v, VBool):
             return v.t
         if isinstance(v, VInt):
@@ -708,6 +760,16 @@ class Interp:
         raise Unsupported(f"comparison {type(op).__name__} on {a!r}, {b!r}")
 
     def identical(self, a, b, node):
+        from .codec import VOpt
+        if isinstance(a, VOpt) or isinstance(b, VOpt):
+            o, other = (a, b) if isinstance(a, VOpt) else (b, a)
+            if isinstance(other, VAtom):
+                try:
+                    if sym.atom_obj(other) is None:
+                        return o.is_none
+                except KeyError:
+                    pass
+            raise Unsupported("identity test of an optional value against a non-None value")
         if isinstance(a, VAtom) and isinstance(b, VAtom):
             return a.t == b.t
         if isinstance(a, VObj) and isinstance(b, VObj):
@@ -931,8 +993,16 @@ class Interp:
             if L.items is not None and z3.is_int_value(a) and z3.is_int_value(b):
                 return self.new_list(L.items[a.as_long(): b.as_long()])
             oid = self.fresh_oid()
-            self.st.lists[oid] = ListObj(b - a, None, L.elem)
-            self.st.ghost[("slice_of", oid)] = (v.oid, a)
+            arrays = None
+            if L.arrays is not None:
+                if z3.eq(a, z3.IntVal(0)):
+                    arrays = list(L.arrays)
+                else:
+                    arrays = []
+                    for arr in L.arrays:
+                        j = z3.Int(self.namer.fresh("j"))
+                        arrays.append(z3.Lambda([j], z3.Select(arr, a + j)))
+            self.st.lists[oid] = ListObj(z3.simplify(b - a), None, L.spec, arrays)
             return VList(oid)
         r = self.world.slice_ext(self, v, lo, hi, node)
         if r is not None:
@@ -1010,7 +1080,13 @@ class Interp:
         args = []
         for a in node.args:
             if isinstance(a, ast.Starred):
-                args.extend(self.iter_concrete(self.ev(a.value), a))
+                sv = self.ev_arg(a.value)
+                try:
+                    args.extend(self.iter_concrete(sv, a))
+                except Unsupported:
+                    if not isinstance(sv, VList):
+                        raise
+                    args.append(StarArgs(sv))
             else:
                 args.append(self.ev_arg(a))
         kwargs = {}
@@ -1127,8 +1203,14 @@ class Interp:
                 env[p] = self.eval_default(defaults[i], ref)
             else:
                 self.throw(TypeError, node, "SAFE-Call")
+        if any(isinstance(x, StarArgs) for x in args[:len(params)]):
+            raise Unsupported("symbolic *args bound to positional parameters")
         if a.vararg is not None:
-            env[a.vararg.arg] = VTuple(args[len(params):])
+            rest = args[len(params):]
+            if any(isinstance(x, StarArgs) for x in rest):
+                env[a.vararg.arg] = self.build_varargs(rest, ref, a.vararg.arg)
+            else:
+                env[a.vararg.arg] = VTuple(rest)
         for p, d in zip(a.kwonlyargs, a.kw_defaults):
             if p.arg in kwargs:
                 env[p.arg] = kwargs.pop(p.arg)
@@ -1141,6 +1223,43 @@ class Interp:
                 self.throw(TypeError, node, "SAFE-Call")
             raise Unsupported("**kwargs parameter")
         return env
+
+    def build_varargs(self, rest, ref, pname):
+        """*args made of concrete items and symbolic lists: one list value with array contents."""
+        from . import codec
+        c = self.world.contract_for(ref)
+        spec = c.params.get(pname) if c is not None else None
+        if not (isinstance(spec, (tuple, list)) and spec and spec[0] == "list"):
+            raise Unsupported(f"symbolic *args need a ('list', elem) spec for *{pname} of {ref.short}")
+        elem = spec[1]
+        arrays = codec.fresh_arrays(self, elem, pname)
+        pos = z3.IntVal(0)
+        for x in rest:
+            if isinstance(x, StarArgs):
+                L = self.st.lists[x.lst.oid]
+                if L.arrays is None or L.spec is None:
+                    raise Unsupported("symbolic *args of unknown element kind")
+                j = z3.Int(self.namer.fresh("j"))
+                saved = self.st.spec
+                self.st.spec = True
+                try:
+                    item, _ = codec.decode(self, L.spec,
+                                           [z3.Select(a2, j - pos) for a2 in L.arrays],
+                                           assume=False)
+                    terms = codec.encode(self, elem, item)
+                finally:
+                    self.st.spec = saved
+                inside = z3.And(pos <= j, j < pos + L.len)
+                arrays = [z3.Lambda([j], z3.If(inside, t, z3.Select(arr, j)))
+                          for arr, t in zip(arrays, terms)]
+                pos = z3.simplify(pos + L.len)
+            else:
+                terms = codec.encode(self, elem, x)
+                arrays = [z3.Store(arr, pos, t) for arr, t in zip(arrays, terms)]
+                pos = z3.simplify(pos + 1)
+        oid = self.fresh_oid()
+        self.st.lists[oid] = ListObj(z3.simplify(pos), None, elem, arrays)
+        return VList(oid)
 
     def eval_default(self, dnode, ref):
         saved_env = self.st.env
@@ -1228,6 +1347,19 @@ class Interp:
                 old = st.heap[key]
                 st.heap[key] = self.havoc_like(old, attr)
 
+    def havoc_list(self, oid, label):
+        from . import codec
+        L = self.st.lists[oid]
+        n = z3.Int(self.namer.fresh(label + "_len"))
+        self.assume(n >= 0)
+        spec = L.spec
+        if spec is None and L.items:
+            specs = {codec.infer_spec(x) for x in L.items}
+            if len(specs) == 1:
+                spec = specs.pop()
+        arrays = codec.fresh_arrays(self, spec, label) if spec is not None else None
+        self.st.lists[oid] = ListObj(n, None, spec, arrays)
+
     def havoc_like(self, v, label):
         if isinstance(v, VInt):
             return self.fresh_int(label)
@@ -1242,10 +1374,7 @@ class Interp:
                 self.assume(sor(*[t == c for c in dom]))
             return VAtom(t)
         if isinstance(v, VList):
-            L = self.st.lists[v.oid]
-            n = z3.Int(self.namer.fresh(label + "_len"))
-            self.assume(n >= 0)
-            self.st.lists[v.oid] = ListObj(n, None, L.elem)
+            self.havoc_list(v.oid, label)
             return v
         if isinstance(v, VDyn):
             return self.fresh_dyn(label)
@@ -1289,8 +1418,23 @@ class Interp:
             var, lo, hi, body = node.args
             if not isinstance(var, ast.Name):
                 raise Unsupported("forall: first argument must be a name")
-            lo_t = self.as_int(self.ev(lo), lo)
-            hi_t = self.as_int(self.ev(hi), hi)
+            lo_t = z3.simplify(self.as_int(self.ev(lo), lo))
+            hi_t = z3.simplify(self.as_int(self.ev(hi), hi))
+            if z3.is_int_value(lo_t) and z3.is_int_value(hi_t) and \
+                    hi_t.as_long() - lo_t.as_long() <= 16:
+                # finite range: expand
+                ps = []
+                saved = st.env.get(var.id)
+                try:
+                    for k in range(lo_t.as_long(), hi_t.as_long()):
+                        st.env[var.id] = VInt(k)
+                        ps.append(self.truth(self.ev(body)))
+                finally:
+                    if saved is None:
+                        st.env.pop(var.id, None)
+                    else:
+                        st.env[var.id] = saved
+                return VBool(sand(*ps) if name == "forall" else sor(*ps))
             bv = z3.Int(self.namer.fresh(var.id))
             saved = st.env.get(var.id)
             st.env[var.id] = VInt(bv)
@@ -1559,10 +1703,7 @@ class Interp:
                 st.heap[key] = self.havoc_like(st.heap[key], key[1])
         for oid in mutated:
             if oid in st.lists:
-                L = st.lists[oid]
-                n = z3.Int(self.namer.fresh("len"))
-                self.assume(n >= 0)
-                st.lists[oid] = ListObj(n, None, L.elem)
+                self.havoc_list(oid, "lst")
 
     def check_invariants(self, lc, kind, ordinal, ref, extra=None):
         if lc is None:
